@@ -817,7 +817,7 @@ def exh_judge(ctx, jobs: list[dict], results: list[dict]) -> None:
 # pmatch vs PurePosixPath.match
 # ---------------------------------------------------------------------------------------------
 
-ATOMS = ["a", "b", ".", "*", "?", "[ab]", "[!a]", "[a-b]", "/", "]", "[", "-", "!", "^"]
+ATOMS = ["a", "b", ".", "*", "?", "[ab]", "[!a]", "[a-b]", "/", "]", "[", "-", "!", "^", "[+-z]"]   # [+-z] spans the code of "/" but not of the newline that stands for it in pathlib._lines
 PM_PATHS = ["/a", "/b", "/a/b", "/b/a", "/a/a", "/ab", "/a/ab", "/ab/b", "/a.b", "/.a", "/a/-", "/a/]", "/a/[a]", "/a/!", "/a/^b",
             "/a/b/a", "/b/.b", "/a/[", "/a/a-b"]
 
@@ -914,8 +914,8 @@ def load_corpus() -> list[dict]:
 def campaign(ctx) -> None:
     # 1. corpus (known witnesses must still be detected: self-test of the oracle)
     corpus = load_corpus()
-    n_cli = ctx.scale(520, 6000)
-    n_dn = ctx.scale(36, 300)
+    n_cli = ctx.scale(400, 6000)
+    n_dn = ctx.scale(30, 300)
     cases = list(corpus)
     cases += [gen_case(ctx.rng, f"c{i}") for i in range(n_cli)]
     cases += [gen_case(ctx.rng, f"dn{i}", "dirnode") for i in range(n_dn)]
